@@ -57,14 +57,14 @@ def regular(draw, syms):
 @st.composite
 def case_strategy(draw):
     if draw(st.integers(0, 2)) < 2:
-        g = draw(gen_cfg.cfg_desc(var_pools=["std", "std", "long", "fresh"], term_pools=["ab", "abc", "shared"],
+        g = draw(gen_cfg.cfg_desc(var_pools=["std", "std", "long", "fresh", "int_str"], term_pools=["ab", "abc", "shared", "int_str"],
                                   max_prods=6, max_body=3, start_always=False))
         if draw(st.integers(0, 14)) == 9:
             # the start-less grammar CFG() (what an intersection with an empty language returns) as operand
             g = {"start": None, "prods": [], "how": "ctor", "vpool": "std", "tpool": "ab"}
         syms = [str(t) for t in gen_cfg.terminals_of(g)] or ["a"]
         return {"kind": "cfg", "g": g, "r": draw(regular(syms[:3]))}
-    p = draw(gen_pda.pda_desc(sym_pools=["ab", "a", "tok"], state_pools=["str", "int", "reserved"]))
+    p = draw(gen_pda.pda_desc(sym_pools=["ab", "a", "tok"], state_pools=["str", "int", "reserved", "int_str"]))
     if draw(st.integers(0, 14)) == 9:
         p = {"start": None, "z0": None, "finals": [], "trans": [], "how": "mut"}     # PDA(), the library's empty result
     syms = [t[1] for t in p["trans"] if t[1] is not None]
